@@ -555,6 +555,56 @@ func multiBody(alpha []letter, n int) func(c *mc.Ctx, item int) mc.Verdict {
 	}
 }
 
+// sortCodes are source codes whose relative order is easy to get wrong: a code
+// and the same code followed by zero bytes, neighbours around them, codes of
+// every length 1..4.
+var sortCodes = [][]byte{{0x41}, {0x41, 0x00}, {0x41, 0x00, 0x00}, {0x41, 0x00, 0x00, 0x00}, {0x40, 0xff}, {0x41, 0x01}, {0x42}, {0x00}, {0x00, 0x00}, {0xff}}
+
+// sortBody: one block of one kind whose entries use every ordered pair and
+// triple of distinct sort codes as source codes, in file order; the table must
+// come back sorted by source code (byte-wise; code-space ranges by length first).
+func sortBody(c *mc.Ctx, item int) mc.Verdict {
+	n := len(sortCodes)
+	kind := cm.Kind(item % 7)
+	rest := item / 7
+	ids := []int{rest % n, (rest / n) % n}
+	third := rest / n / n // 0 = pair only
+	if third > 0 {
+		ids = append(ids, third-1)
+	}
+	for i := range ids {
+		for j := range ids {
+			if i != j && ids[i] == ids[j] {
+				return mc.Pass("n/a:repeated-code", false)
+			}
+		}
+	}
+	m := baseCMap(0)
+	b := cm.Block{Kind: kind, Declared: -1}
+	for i, id := range ids {
+		lo := cm.Str(sortCodes[id]...)
+		e := cm.Entry{Lo: lo}
+		if kind.HasBounds() {
+			e.Hi = lo
+		}
+		switch kind {
+		case cm.CidChar, cm.CidRange, cm.NotdefChar, cm.NotdefRange:
+			e.Dst = cm.Int(100 + i)
+		case cm.BfChar, cm.BfRange:
+			e.Dst = cm.Str(0, byte(0x30+i))
+		}
+		b.Entries = append(b.Entries, e)
+	}
+	m.Blocks = []cm.Block{b}
+	f := cm.File{CMaps: []cm.CMap{m}}
+	data := cm.Write(f, cm.Layout{})
+	var desc []string
+	for _, id := range ids {
+		desc = append(desc, fmt.Sprintf("<%x>", sortCodes[id]))
+	}
+	return run(c, f, data, fmt.Sprintf("one %v block with source codes %s in this file order", kind, strings.Join(desc, " ")), "")
+}
+
 func describeSeq(alpha []letter) func(int) string {
 	return func(item int) string {
 		ids := decodeSeq(item, len(alpha))
@@ -729,6 +779,14 @@ func main() {
 				Budget:   budget,
 				Rule:     fmt.Sprintf("item = ordered triple of letters over 7 kinds x count %v, one block per CMap; free choices: all 6 assignments of three names to file positions x shared/separate CIDInit begin; oracle as for two CMaps", map[bool][]int{false: {1, 3}, true: small}[thorough]),
 				CrashKey: func(int) string { return "C07:crash:multi" },
+			})
+			fams = append(fams, mc.Family{
+				Name:     "sort-order",
+				Items:    7 * len(sortCodes) * len(sortCodes) * (len(sortCodes) + 1),
+				Body:     sortBody,
+				Budget:   budget,
+				Rule:     fmt.Sprintf("item = (kind of 7, ordered pair or triple of distinct source codes from %x written in that file order): a code and the same code followed by 1..3 zero bytes, their byte-wise neighbours, codes of every length; the table must come back sorted by source code (code-space ranges by length, then code); non-trivial = distinct codes", sortCodes),
+				CrashKey: func(int) string { return "C07:crash:sort-order" },
 			})
 			return fams
 		},
